@@ -12,6 +12,8 @@ package main
 // Anything that does not have this shape makes the tool exit non-zero (a broken tie).
 
 import (
+	"fmt"
+	"strings"
 	"go/ast"
 	"go/token"
 	"go/types"
@@ -222,6 +224,70 @@ func supervisorFacts(p *Pkg) map[string]interface{} {
 		fail("%s: the nil branch does not `return true, nil` (got %v)", p.pos(f1), nilRet)
 	}
 	out["stopCheck"] = stop
+
+	// what one attempt (f₂) reports: the error variable of its final `return true, <v>` and every assignment to it, each
+	// with the conditions it sits under (an attempt counts as failed iff that value is non-nil)
+	f2 := inner[0].fn
+	lastRet, _ := f2.Body.List[len(f2.Body.List)-1].(*ast.ReturnStmt)
+	if lastRet == nil || len(lastRet.Results) != 2 {
+		fail("%s: the attempt function does not end in `return <retry?>, <err>`", p.pos(f2))
+	}
+	rv, okv := lastRet.Results[1].(*ast.Ident)
+	if !okv {
+		fail("%s: the attempt function's final error result is not a variable", p.pos(lastRet))
+	}
+	var attempt []string
+	var walk func(list []ast.Stmt, conds []string)
+	walk = func(list []ast.Stmt, conds []string) {
+		for _, st := range list {
+			switch x := st.(type) {
+			case *ast.AssignStmt:
+				for i, l := range x.Lhs {
+					if isIdent(l, rv.Name) {
+						rhs := ""
+						if len(x.Rhs) == len(x.Lhs) {
+							rhs = types.ExprString(x.Rhs[i])
+						} else {
+							rhs = types.ExprString(x.Rhs[0]) + fmt.Sprintf("#%d", i)
+						}
+						attempt = append(attempt, strings.Join(conds, " && ")+" => "+rhs)
+					}
+				}
+			case *ast.ReturnStmt:
+				var rs []string
+				for _, r := range x.Results {
+					rs = append(rs, types.ExprString(r))
+				}
+				attempt = append(attempt, strings.Join(conds, " && ")+" => return "+strings.Join(rs, ", "))
+			case *ast.IfStmt:
+				c := types.ExprString(x.Cond)
+				walk(x.Body.List, append(append([]string{}, conds...), c))
+				switch e := x.Else.(type) {
+				case *ast.BlockStmt:
+					walk(e.List, append(append([]string{}, conds...), "!("+c+")"))
+				case *ast.IfStmt:
+					walk([]ast.Stmt{e}, append(append([]string{}, conds...), "!("+c+")"))
+				}
+			case *ast.BlockStmt:
+				walk(x.List, conds)
+			case *ast.ForStmt, *ast.RangeStmt, *ast.SwitchStmt, *ast.SelectStmt:
+				ast.Inspect(x, func(n ast.Node) bool {
+					if as, ok := n.(*ast.AssignStmt); ok {
+						for _, l := range as.Lhs {
+							if isIdent(l, rv.Name) {
+								attempt = append(attempt, "<nested> => "+types.ExprString(as.Rhs[0]))
+							}
+						}
+					}
+					return true
+				})
+			}
+		}
+	}
+	walk(f2.Body.List, nil)
+	out["attemptErrVar"] = rv.Name
+	out["attemptErr"] = attempt
+	out["attemptRetry"] = types.ExprString(lastRet.Results[0])
 
 	// TrySend
 	ts := findFunc(p, "LLRPDevice.TrySend")
